@@ -444,6 +444,8 @@ def winAgg (name : String) (minp : Nat) (q : Rat) (w : List Row) : Option Rat :=
   | "median" => if n < minp ∨ n = 0 then none else some (quantI (1 / 2) xs)
   | "quantile" => if n < minp ∨ n = 0 then none else some (quantI q xs)
   | "var" => if n < minp ∨ n ≤ 1 then none else some (varI 1 xs)
+  | "var0" => if n < minp ∨ n = 0 then none else some (varI 0 xs)      -- `var(ddof=0)` / `std(ddof=0)`
+  | "var2" => if n < minp ∨ n ≤ 2 then none else some (varI 2 xs)      -- `var(ddof=2)`
   | _ => none
 
 end StreamzVerif.Rolling
